@@ -5,7 +5,8 @@ From Verif Require Import Base.Prelude Base.PySort Model.ToHashable Model.ToHash
 Inductive case :=
 | CPair (fp : bool) (v w : pyval)        (* to_hashable(v, fp) vs to_hashable(w, fp) *)
 | CMemo (args : list pyval)              (* f = memoize()(body); f(a) for a in args; which body run produced each result *)
-| CPickle (v : pyval).                   (* _pickle_key(to_hashable(v)) (DiskCache file name) in two interpreters *)
+| CPickle (v : pyval)                    (* _pickle_key(to_hashable(v)) (DiskCache file name) in two interpreters *)
+| CRekey (v w : pyval).                  (* x = build v; k0 = key(x); mutate the SAME object x in place into w; k1 = key(x) *)
 
 (* ---------- model observation ---------- *)
 Definition obs_side (r : result pyval) : sx :=
@@ -72,6 +73,17 @@ Definition run (c : case) : sx :=
       match to_hashable true v with
       | Ok k => SL [SS (s "ok"); SB (negb (seed_dep k))]
       | Err e => SErr e
+      end
+  | CRekey v w =>
+      (* the key is a function of the current VALUE: no memory of the object's identity or earlier contents, and
+         (ndarray values carry no layout in the model) of its logical content only *)
+      match to_hashable true v with
+      | Err e => SErr e
+      | Ok k0 =>
+          match to_hashable true w with
+          | Err e => SErr e
+          | Ok k1 => SL [SB (py_eq k1 k1); SB (py_eq k1 k0)]     (* [k1 == key(fresh w); k1 == k0] *)
+          end
       end
   end.
 
@@ -140,6 +152,20 @@ Definition spec_ok (c : case) (o : sx) : bool :=
       if sx_is_err o then true else
       match o with
       | SL [SS t; b] => str_eqb t (s "ok") && match un_bool b with Some true => true | _ => false end
+      | _ => false
+      end
+  | CRekey v w =>
+      (* after the in-place update the object IS the value w: its key equals the key of an independently built w
+         (equal values of the same type), and equals the earlier key exactly when w is the same value as v
+         (a raised error is judged by the pair cases) *)
+      if negb (supported v && supported w) then true else
+      if sx_is_err o then true else
+      match o with
+      | SL [a; b] =>
+          match un_bool a, un_bool b with
+          | Some fresh, Some same => fresh && Bool.eqb same (py_same w v)
+          | _, _ => false
+          end
       | _ => false
       end
   end.
